@@ -1,4 +1,4 @@
-import Model.Adopt
+import Model.Core
 import Model.Bufio
 import Model.WriteLoop
 /-! The sequential client model: one `S` value is the whole observable state of
@@ -44,15 +44,6 @@ inductive RsResult
   | unsupported (why : String)
 deriving DecidableEq, Repr
 
-structure Level where
-  acceptN : Nat := 0
-  submitN : Nat := 0
-  max : Nat := 0
-  queue : List Nat := []      -- exchange ids awaiting the final acknowledgement, oldest first
-  space : Nat := 0
-  seqClosed : Bool := false   -- seqSem closed by termCallbacks
-deriving DecidableEq, Repr
-
 inductive Link | pending | down | live | closed
 deriving DecidableEq, Repr
 
@@ -85,8 +76,7 @@ deriving DecidableEq, Repr
 structure S where
   cfg : Cfg := {}
   bufSize : Nat := 131072
-  store : Store := []
-  seqNo : Nat := 0                    -- ruggedPersistence.seqNo
+  core : Core := {}                   -- counters, queues and Persistence content (Model.Core)
   fSave : Bool := false               -- next Save fails
   fDel : Bool := false
   fLoad : Bool := false
@@ -101,11 +91,6 @@ structure S where
   peek : Bytes := []
   pendingAck : Bytes := []
   big : Option Nat := none            -- c.bigMessage.Size while the window is open
-  l1 : Level := {}
-  l2 : Level := {}
-  acked : Nat := 0
-  received : Nat := 0
-  completed : Nat := 0
   txN : Nat := 0
   txs : List Tx := []
   ping : Option String := none        -- tag of the Ping call owning the slot
@@ -123,23 +108,21 @@ def S.emit (s : S) (e : Ev) : S := { s with evs := e :: s.evs }
 /-! ### Persistence through `ruggedPersistence` -/
 
 def S.save (s : S) (key : Nat) (packet : Bytes) : S × Option Err :=
-  let seq := s.seqNo + 1
-  if s.fSave then (({ s with seqNo := seq, fSave := false }).emit (.saveFail key), some (mkErr ["store"]))
-  else (({ s with seqNo := seq, store := s.store.put key (encodeValue packet seq) }).emit (.save key packet seq), none)
+  match s.core.save key packet s.fSave with
+  | (c, false) => (({ s with core := c, fSave := false }).emit (.saveFail key), some (mkErr ["store"]))
+  | (c, true) => (({ s with core := c }).emit (.save key packet c.seqNo), none)
 
 def S.delete (s : S) (key : Nat) : S × Option Err :=
-  if s.fDel then (({ s with fDel := false }).emit (.delFail key), some (mkErr ["store"]))
-  else (({ s with store := s.store.erase key }).emit (.del key), none)
+  match s.core.delete key s.fDel with
+  | (c, false) => (({ s with core := c, fDel := false }).emit (.delFail key), some (mkErr ["store"]))
+  | (c, true) => (({ s with core := c }).emit (.del key), none)
 
 /-- `ruggedPersistence.Load`: nil means not found -/
 def S.load (s : S) (key : Nat) : S × Except Err (Option Bytes) :=
   if s.fLoad then ({ s with fLoad := false }, .error (mkErr ["store"]))
-  else match s.store.get key with
-    | none => (s, .ok none)
-    | some raw =>
-      match decodeValue raw with
-      | .ok (p, _) => (s, .ok (some p))
-      | .error _ => (s, .error (mkErr ["corrupt"]))
+  else match s.core.load key with
+    | .ok v => (s, .ok v)
+    | .error _ => (s, .error (mkErr ["corrupt"]))
 
 /-! ### Connection writes -/
 
@@ -153,7 +136,9 @@ def S.connWrite (s : S) (f : WConn → WConn × WOut) : S × WOut :=
     if c.rd.closed then (s, .closed) else
     let (wc, o) := f c.wconn
     let added := wc.log.drop c.log.length
-    let s := { s with conn := some { c with wpol := wc.policy, log := wc.log } }
+    -- a `closed` outcome means the connection turned out to be closed already
+    let rd := if o == .closed then { c.rd with closed := true } else c.rd
+    let s := { s with conn := some { c with wpol := wc.policy, log := wc.log, rd := rd } }
     ((if added.isEmpty then s else s.emit (.w c.id added)), o)
 
 def S.closeConn (s : S) : S :=
@@ -218,8 +203,6 @@ def S.toOffline (s : S) : S :=
   let s := s.releasePing (mkErr ["break"])
   s.breakAll
 
-def publishKey (space seqNo : Nat) : Nat := seqNo % idMod + space
-
 /-- `resend` (client.go:1017-1042) -/
 def S.resendLoop : Nat → S → Nat → Level → S × Level × Option Err
   | 0, s, _, lv => (s, lv, none)
@@ -232,14 +215,13 @@ def S.resendLoop : Nat → S → Nat → Level → S × Level × Option Err
     | (s, .ok (some packet)) =>
       let packet :=
         match packet with
-        | h :: rest => if seqNo < lv.submitN && h.toNat / 16 == Facts.typePUBLISH
+        | h :: rest => if lv.isDup seqNo && h.toNat / 16 == Facts.typePUBLISH
                        then UInt8.ofNat (h.toNat ||| Facts.dupeFlag) :: rest else packet
         | [] => packet
       let (s, o) := s.connWrite (writeTo · packet)
       if o != .ok then (s, lv, some (mkErr [woutTag o]))
       else
-        let lv := if seqNo ≥ lv.submitN then { lv with submitN := seqNo + 1 } else lv
-        S.resendLoop fuel s (seqNo + 1) lv
+        S.resendLoop fuel s (seqNo + 1) (lv.resent seqNo)
 
 def S.resend (s : S) (from_ : Nat) (lv : Level) : S × Level × Option Err :=
   S.resendLoop (lv.acceptN - from_ + 1) s from_ lv
@@ -342,13 +324,13 @@ def S.connect (s : S) : S × Option Err :=
           let s := if sp then s else { s with inNewSession := true }
           let s := { s with conn := some { c with rd := (rd.discard 4).1 }, hadConn := true }
           -- resend under both sequence locks and the write lock
-          let (s, l1, e1) := s.resend s.acked s.l1
-          let s := { s with l1 := l1 }
+          let (s, l1, e1) := s.resend s.core.acked s.core.l1
+          let s := { s with core := { s.core with l1 := l1 } }
           match e1 with
           | some e => ((({ s.closeConn with link := .down }).failWaiters (mkErr ["down"])), some e)
           | none =>
-            let (s, l2, e2) := s.resend s.completed s.l2
-            let s := { s with l2 := l2 }
+            let (s, l2, e2) := s.resend s.core.completed s.core.l2
+            let s := { s with core := { s.core with l2 := l2 } }
             match e2 with
             | some e => ((({ s.closeConn with link := .down }).failWaiters (mkErr ["down"])), some e)
             | none => ({ s with link := .live, readConn := true }, none)
@@ -471,26 +453,22 @@ def S.onPUBLISH (s : S) (head : UInt8) : S × PubResult :=
       | _ => (s, .err (mkErr ["reset"]))
   | _ => (s, .err (mkErr ["reset"]))
 
-def S.closeExchange (s : S) (lv : Level) : S × Level :=
-  match lv.queue with
-  | ex :: rest => ((if s.placeholders.contains ex then s else s.emit (.exchClose ex)), { lv with queue := rest })
-  | [] => (s, lv)
+def S.closeExchange (s : S) (ex : Option Nat) : S :=
+  match ex with
+  | some ex => if s.placeholders.contains ex then s else s.emit (.exchClose ex)
+  | none => s
 
 /-- `onPUBACK` (request.go:664-692) -/
 def S.onPUBACK (s : S) : S × Option Err :=
   match s.peek with
   | [hi, lo] =>
     let id := beU16 hi lo
-    let expect := publishKey Facts.atLeastOnceIDSpace s.acked
-    if id == 0 then (s, some (mkErr ["reset"]))
-    else if id / idMod * idMod != Facts.atLeastOnceIDSpace then (s, some (mkErr ["reset"]))
-    else if expect != id then (s, some (mkErr ["reset"]))
-    else if s.l1.queue.isEmpty then (s, some (mkErr ["reset"]))
-    else match s.delete id with
-      | (s, some e) => (s, some e)
-      | (s, none) =>
-        let (s, l1) := s.closeExchange s.l1
-        ({ s with acked := s.acked + 1, l1 := l1 }, none)
+    match s.core.pubackCheck id with
+    | .reset => (s, some (mkErr ["reset"]))
+    | .ok =>
+      match s.core.puback id s.fDel with
+      | (c, none) => (({ s with core := c, fDel := false }).emit (.delFail id), some (mkErr ["store"]))
+      | (c, some ex) => ((({ s with core := c }).emit (.del id)).closeExchange (some ex), none)
   | _ => (s, some (mkErr ["reset"]))
 
 /-- `onPUBREC` (request.go:695-730) -/
@@ -498,17 +476,14 @@ def S.onPUBREC (s : S) : S × Option Err :=
   match s.peek with
   | [hi, lo] =>
     let id := beU16 hi lo
-    let expect := publishKey Facts.exactlyOnceIDSpace s.received
-    if id == 0 then (s, some (mkErr ["reset"]))
-    else if id / idMod * idMod != Facts.exactlyOnceIDSpace then (s, some (mkErr ["reset"]))
-    else if id != expect then (s, some (mkErr ["reset"]))
-    else if s.received - s.completed ≥ s.l2.queue.length then (s, some (mkErr ["reset"]))
-    else
+    match s.core.pubrecCheck id with
+    | .reset => (s, some (mkErr ["reset"]))
+    | .ok =>
       let rel := ackPacket Facts.typePUBREL 2 id
-      match ({ s with pendingAck := rel }).save id rel with
-      | (s, some e) => ({ s with pendingAck := [] }, some e)
-      | (s, none) =>
-        let s := { s with received := s.received + 1 }
+      match s.core.pubrec id rel s.fSave with
+      | (c, false) => (({ s with core := c, fSave := false, pendingAck := [] }).emit (.saveFail id), some (mkErr ["store"]))
+      | (c, true) =>
+        let s := ({ s with core := c, pendingAck := rel }).emit (.save id rel c.seqNo)
         match s.readerWrite s.pendingAck with
         | (s, some e) => (s, some e)
         | (s, none) => ({ s with pendingAck := [] }, none)
@@ -535,16 +510,12 @@ def S.onPUBCOMP (s : S) : S × Option Err :=
   match s.peek with
   | [hi, lo] =>
     let id := beU16 hi lo
-    let expect := publishKey Facts.exactlyOnceIDSpace s.completed
-    if id == 0 then (s, some (mkErr ["reset"]))
-    else if id / idMod * idMod != Facts.exactlyOnceIDSpace then (s, some (mkErr ["reset"]))
-    else if id != expect then (s, some (mkErr ["reset"]))
-    else if s.completed ≥ s.received || s.l2.queue.isEmpty then (s, some (mkErr ["reset"]))
-    else match s.delete id with
-      | (s, some e) => (s, some e)
-      | (s, none) =>
-        let (s, l2) := s.closeExchange s.l2
-        ({ s with completed := s.completed + 1, l2 := l2 }, none)
+    match s.core.pubcompCheck id with
+    | .reset => (s, some (mkErr ["reset"]))
+    | .ok =>
+      match s.core.pubcomp id s.fDel with
+      | (c, none) => (({ s with core := c, fDel := false }).emit (.delFail id), some (mkErr ["store"]))
+      | (c, some ex) => ((({ s with core := c }).emit (.del id)).closeExchange (some ex), none)
   | _ => (s, some (mkErr ["reset"]))
 
 def subErrTag (fs : List Bytes) : String := "suberr:" ++ ",".intercalate (fs.map hexOrDash)
@@ -679,15 +650,13 @@ def S.rsFuel (s : S) : Nat :=
     + s.prefeed.length + 16
 
 /-- `termCallbacks` (client.go:479-529) -/
-def S.termLevel (s : S) (lv : Level) : S × Level :=
-  if lv.seqClosed then (s, lv) else
-  let s' := lv.queue.foldl (fun s ex => if s.placeholders.contains ex then s else s.emit (.exch ex (mkErr ["closed"]))) s
-  (s', { lv with seqClosed := true, queue := [] })
-
 def S.termCallbacks (s : S) : S :=
-  let (s, l1) := s.termLevel s.l1
-  let (s, l2) := s.termLevel { s with l1 := l1 }.l2
-  let s := { s with l1 := l1, l2 := l2 }
+  let flush (s : S) (lv : Level) : S :=
+    if lv.seqClosed then s else
+    lv.queue.foldl (fun s ex => if s.placeholders.contains ex then s else s.emit (.exch ex (mkErr ["closed"]))) s
+  let s := flush s s.core.l1
+  let s := flush s s.core.l2
+  let s := { s with core := s.core.term }
   let s := s.releasePing (mkErr ["break"])
   s.breakAll
 
@@ -787,38 +756,33 @@ def S.publish0 (s : S) (tag : String) (retain : Bool) (topic msg : Bytes) : S ×
 
 /-- `submitPersisted` with `applySeqNoAndEnqueue` (request.go:579-635); `lvl` is 1 or 2 -/
 def S.publishPersisted (s : S) (lvl : Nat) (retain : Bool) (topic msg : Bytes) : S × Err × Option Nat :=
-  let lv := if lvl == 1 then s.l1 else s.l2
-  let setLv (s : S) (lv : Level) : S := if lvl == 1 then { s with l1 := lv } else { s with l2 := lv }
+  let lv := s.core.lv lvl
   let head := UInt8.ofNat (Facts.typePUBLISH * 16 + lvl * 2 + (if retain then Facts.retainFlag else 0))
   -- publishPacket is composed with the space as identifier first (deny rules)
   match publishHead head topic lv.space msg.length with
   | .error _ => (s, mkErr ["deny"], none)
   | .ok _ =>
-    if lv.seqClosed then (s, mkErr ["closed"], none) else
-    let hasBacklog := lv.submitN < lv.acceptN
-    if lv.queue.length ≥ lv.max then (s, mkErr ["max"], none) else
-    let pid := publishKey lv.space lv.acceptN
-    match publishHead head topic pid msg.length with
-    | .error _ => (s, mkErr ["deny"], none)
-    | .ok hd =>
-      match s.save pid (hd ++ msg) with
-      | (s, some e) => (s, e, none)
-      | (s, none) =>
-        let ex := s.nextEx
-        let s := { s with nextEx := ex + 1 }
-        let lv := { lv with queue := lv.queue ++ [ex], acceptN := lv.acceptN + 1 }
-        if hasBacklog then ((setLv s lv).emit (.exch ex (mkErr ["down"])), errOk, some ex)
-        else
-          -- writeBuffersNoWait
-          match s.link with
-          | .closed => ((setLv s lv).emit (.exch ex (mkErr ["closed"])), errOk, some ex)
-          | .down | .pending => ((setLv s lv).emit (.exch ex (mkErr ["down"])), errOk, some ex)
-          | .live =>
-            let (s, o) := s.connWrite (writeBuffersTo · [hd, msg])
-            if o == .ok then (setLv s { lv with submitN := lv.acceptN }, errOk, some ex)
-            else
-              let (s, e) := s.afterWriteErr o
-              ((setLv s lv).emit (.exch ex e), errOk, some ex)
+    let mkHead (key : Nat) : Bytes := match publishHead head topic key msg.length with | .ok hd => hd | .error _ => []
+    let ex := s.nextEx
+    match s.core.accept lvl (fun key => mkHead key ++ msg) s.fSave ex with
+    | (_, .closed) => (s, mkErr ["closed"], none)
+    | (_, .max) => (s, mkErr ["max"], none)
+    | (c, .saveFailed) =>
+      (({ s with core := c, fSave := false }).emit (.saveFail (publishKey lv.space lv.acceptN)), mkErr ["store"], none)
+    | (c, .ok key hadBacklog) =>
+      let s := ({ s with core := c, nextEx := ex + 1 }).emit (.save key (mkHead key ++ msg) c.seqNo)
+      if hadBacklog then (s.emit (.exch ex (mkErr ["down"])), errOk, some ex)
+      else
+        -- writeBuffersNoWait
+        match s.link with
+        | .closed => (s.emit (.exch ex (mkErr ["closed"])), errOk, some ex)
+        | .down | .pending => (s.emit (.exch ex (mkErr ["down"])), errOk, some ex)
+        | .live =>
+          let (s, o) := s.connWrite (writeBuffersTo · [mkHead key, msg])
+          if o == .ok then ({ s with core := s.core.markSubmitted lvl }, errOk, some ex)
+          else
+            let (s, e) := s.afterWriteErr o
+            (s.emit (.exch ex e), errOk, some ex)
 
 /-- `subscribeLevel` (request.go:288-341) up to the wait for the response -/
 def S.subscribe (s : S) (tag : String) (filters : List Bytes) (levelMax : Nat) : S × CallResult :=
@@ -915,50 +879,43 @@ def S.disconnect (s : S) : S × Err :=
 
 /-! ### Session set-up -/
 
-def mkLevels (s : S) : S :=
-  { s with l1 := { max := normMax s.cfg.atLeastOnceMax, space := Facts.atLeastOnceIDSpace },
-           l2 := { max := normMax s.cfg.exactlyOnceMax, space := Facts.exactlyOnceIDSpace } }
-
 /-- `InitSession` (request.go:769-812) on the current store -/
 def S.initSession (s : S) (clientID : Bytes) (cfg : Cfg) : S × Option Err :=
   if (stringCheck clientID).isSome then (s, some (mkErr ["deny"])) else
   if cfg.valid.isSome then (s, some (mkErr ["deny"])) else
-  if !s.store.isEmpty then (s, some (mkErr ["other"])) else
-  let s0 : S := { cfg := cfg, bufSize := s.bufSize, store := s.store, evs := s.evs, dials := s.dials,
+  if !s.core.store.isEmpty then (s, some (mkErr ["other"])) else
+  let s0 : S := { cfg := cfg, bufSize := s.bufSize, evs := s.evs, dials := s.dials,
+                  core := Core.fresh s.core.store 0 cfg.atLeastOnceMax cfg.exactlyOnceMax,
                   prefeed := s.prefeed, nconn := s.nconn, fSave := s.fSave, fDel := s.fDel, fLoad := s.fLoad }
   match s0.save Facts.clientIDKey clientID with
   | (s, some e) => (s, some e)
-  | (s, none) => (mkLevels { s with noClient := false }, none)
+  | (s, none) => ({ s with noClient := false }, none)
 
 /-- `AdoptSession` (request.go:819-979) on the current store; the previous client is abandoned -/
 def S.adoptSession (s : S) (cfg : Cfg) : S × Except Err (List Warn) :=
   let s := { s with noClient := true, parked := false, waiters := [], txs := [], ping := none }
   if cfg.valid.isSome then (s, .error (mkErr ["deny"])) else
-  let outboundKeys := s.store.sortedKeys.filter fun k => !(k == Facts.clientIDKey || k / Facts.remoteIDKeyFlag % 2 == 1)
+  let outboundKeys := s.core.store.sortedKeys.filter fun k => !(k == Facts.clientIDKey || k / Facts.remoteIDKeyFlag % 2 == 1)
   if s.fLoad && !outboundKeys.isEmpty then ({ s with fLoad := false }, .error (mkErr ["store"])) else
   -- one-shot fault: only the first Delete of a corrupt record fails
-  let firstCorrupt := outboundKeys.find? fun k => match s.store.get k with
+  let firstCorrupt := outboundKeys.find? fun k => match s.core.store.get k with
     | some raw => match decodeValue raw with | .error _ => true | .ok _ => false
     | none => false
   let delFails : Nat → Bool := fun k => s.fDel && firstCorrupt == some k
-  match adopt s.store cfg.atLeastOnceMax cfg.exactlyOnceMax delFails with
+  match adopt s.core.store cfg.atLeastOnceMax cfg.exactlyOnceMax delFails with
   | .error _ => (s, .error (mkErr ["other"]))
   | .ok a =>
     let dels := a.warns.filterMap fun w => match w with | .corruptDeleted k => some (Ev.del k) | .corruptKept k => some (Ev.delFail k) | _ => none
     let n1 := a.alo.length
     let n2 := a.eo.length + a.rel.length
-    let s1 : S := { cfg := cfg, bufSize := s.bufSize, store := a.store, seqNo := a.maxSeq, dials := s.dials,
-                    prefeed := s.prefeed, nconn := s.nconn, fSave := s.fSave, fLoad := s.fLoad,
-                    fDel := s.fDel && firstCorrupt.isNone,
-                    evs := dels.reverse ++ s.evs, nextEx := s.nextEx }
-    let s1 := mkLevels { s1 with noClient := false }
     let q1 := (List.range n1).map (· + 1000000)
     let q2 := (List.range n2).map (· + 1000000 + n1)
-    let s1 := { s1 with
-      acked := a.ctr.acked, received := a.ctr.received, completed := a.ctr.completed,
-      l1 := { s1.l1 with acceptN := a.ctr.accept1, submitN := a.ctr.accept1, queue := q1 },
-      l2 := { s1.l2 with acceptN := a.ctr.accept2, submitN := a.ctr.accept2, queue := q2 },
-      placeholders := q1 ++ q2 }
+    let s1 : S := { cfg := cfg, bufSize := s.bufSize, dials := s.dials,
+                    core := Core.ofAdopted a cfg.atLeastOnceMax cfg.exactlyOnceMax q1 q2,
+                    prefeed := s.prefeed, nconn := s.nconn, fSave := s.fSave, fLoad := s.fLoad,
+                    fDel := s.fDel && firstCorrupt.isNone,
+                    evs := dels.reverse ++ s.evs, nextEx := s.nextEx,
+                    placeholders := q1 ++ q2, noClient := false }
     (s1, .ok a.warns)
 
 end Model
